@@ -155,6 +155,33 @@ def rule_converter(ctx: Ctx) -> None:
             tbl = any(s.strip().endswith(".name") for s in sides)
             ctx.check(low and tbl, "C14-case", fname, "compare", f"lookup compares {k[5:]} – expected `<query>.lower() == <table entry>.name`",
                       fi=fi, expected="name.lower() == label_info.name", found=k[5:])
+        # implicit raises: `d[k] += v` / `d[k]` on a plain dict attribute raises KeyError for a key that was never stored
+        ini = ctx.func(LABEL + "LabelConverter.__init__")
+        plain_dicts = set()
+        for nd in ast.walk(ini.node):
+            tgt = val = None
+            if isinstance(nd, ast.Assign) and len(nd.targets) == 1:
+                tgt, val = nd.targets[0], nd.value
+            elif isinstance(nd, ast.AnnAssign) and nd.value is not None:
+                tgt, val = nd.target, nd.value
+            if isinstance(tgt, ast.Attribute) and isinstance(tgt.value, ast.Name) and tgt.value.id == "self" and val is not None and strip_v(U(val)).replace(" ", "") in ("{}", "dict()"):
+                plain_dicts.add(tgt.attr)
+        for nd in ast.walk(fi.node):
+            sub = None
+            if isinstance(nd, ast.AugAssign) and isinstance(nd.target, ast.Subscript):
+                sub = nd.target
+            if sub is not None and isinstance(sub.value, ast.Attribute) and isinstance(sub.value.value, ast.Name) and sub.value.value.id == "self" and sub.value.attr in plain_dicts:
+                key = U(sub.slice)
+                guarded = False
+                par = nd
+                from sa.source import PARENTS
+                cur = PARENTS.get(id(nd)) if hasattr(PARENTS, "get") else None
+                while cur is not None and cur is not fi.node:
+                    if isinstance(cur, ast.If) and f"{key} in self.{sub.value.attr}" in U(cur.test):
+                        guarded = True
+                    cur = PARENTS.get(id(cur))
+                ctx.check(guarded, "C14-total", fname, f"keyerror:{sub.value.attr}", f"{fname} updates `self.{sub.value.attr}[{key}]` in place although `self.{sub.value.attr}` starts as an empty dict and nothing guarantees the key: "
+                          "KeyError for a name seen for the first time - conversion must never fail (unregistered names map to unknown)", fi=fi, expected=f"self.{sub.value.attr}.get({key}, 0) + 1 / a guard", found=U(nd)[:100])
         # decision structure: a table entry whose name matches yields ITS label; a non-matching entry changes nothing; UNKNOWN iff nothing matched
         from rules.common import enum_paths as _ep
         for p in _ep(ctx, fi):
